@@ -33,6 +33,13 @@ func c13Sites() []c13Site {
 		{"command-argument-before-paren", true, func(u string, at *AtomTable) string { return script(at, cmd(at)+"("+u+"(3), "+ph(at.New(ClsIdent, "arg", "consts"))+")") }, nil},
 		{"flag-operand", true, func(u string, at *AtomTable) string { return script(at, "if (flag("+u+")) {\n"+cmd(at)+"\n}") }, nil},
 		{"var-operand", true, func(u string, at *AtomTable) string { return script(at, "if (var("+u+") == 1) {\n"+cmd(at)+"\n}") }, nil},
+		// operands of several tokens that mention the identifier
+		{"flag-operand-multi", true, func(u string, at *AtomTable) string { return script(at, "if (!flag("+u+" + 1)) {\n"+cmd(at)+"\n}") }, nil},
+		{"var-operand-multi", true, func(u string, at *AtomTable) string { return script(at, "if (var("+ph(at.New(ClsIdent, "base", "consts"))+" + "+u+") == 1) {\n"+cmd(at)+"\n}") }, nil},
+		{"defeated-operand-multi", true, func(u string, at *AtomTable) string { return script(at, "if (defeated("+u+" + 2)) {\n"+cmd(at)+"\n}") }, nil},
+		{"switch-operand-multi", true, func(u string, at *AtomTable) string {
+			return script(at, "switch (var("+u+" + 1)) {\ncase 1:\n"+cmd(at)+"\n}")
+		}, nil},
 		{"defeated-operand", true, func(u string, at *AtomTable) string { return script(at, "while (!defeated("+u+")) {\n"+cmd(at)+"\n}") }, nil},
 		{"comparison-value", true, func(u string, at *AtomTable) string {
 			return script(at, "if (var("+ph(at.New(ClsIdent, "var", "consts"))+") >= "+u+") {\n"+cmd(at)+"\n}")
@@ -115,6 +122,18 @@ func c13MakeDefs(kind string, at *AtomTable) []*c13Def {
 		return []*c13Def{
 			{k1, func() string { return ph(v) + " + " + ph(n) }, func() string { return ph(v) + " + " + ph(n) }},
 			{k2, func() string { return ph(k1) }, func() string { return ph(v) + " + " + ph(n) }},
+		}
+	case "shared-base":
+		// a base constant of five tokens and two constants that extend it (no
+		// parentheses: inside an operand the written-out value would end at
+		// the first ')')
+		v1, v2, v3 := at.New(ClsIdent, "cv", "consts"), at.New(ClsIdent, "cv", "consts"), at.New(ClsNum, "cv", "")
+		b, q1, q2 := k(), k(), k()
+		base := func() string { return ph(v1) + " + " + ph(v2) + " + " + ph(v3) }
+		return []*c13Def{
+			{b, base, base},
+			{q1, func() string { return ph(b) + " + 1" }, func() string { return base() + " + 1" }},
+			{q2, func() string { return ph(b) + " + 2" }, func() string { return base() + " + 2" }},
 		}
 	case "chain":
 		v := at.New(ClsNum, "cv", "")
@@ -311,7 +330,7 @@ func RunC13(env *Env, rep *Report) {
 	var siteNames []string
 	for _, s := range c13Sites() {
 		siteNames = append(siteNames, s.name)
-		for _, dk := range []string{"one-single", "one-multi", "chain", "alias-multi"} {
+		for _, dk := range []string{"one-single", "one-multi", "chain", "alias-multi", "shared-base"} {
 			if s.name == "mart-item" && dk != "one-single" {
 				continue // a multi-token value cannot be written out as a mart item
 			}
